@@ -15,14 +15,26 @@
 // cfg [3]  RefCounted:  [1] TryIncrement() obs [ret]   [2] Decrement() obs [#onZero runs so far]
 //
 //	[3] Increment() obs [#onZero runs so far]
+//
+// cfg [4]  TimeoutCache, the fired-but-not-yet-locked timer window forced on the real code (real
+// time, no bubble): [1,n] = n times { Add(k, timeout 1ms); lock c.mu from outside (the mutex
+// field is reached with reflect+unsafe); start Remove(k), which queues on the mutex; sleep until
+// the timer has fired, so that the timer function queues behind Remove; unlock }.
+// obs [v1, v2]: v1 = iterations where Remove returned true and the callback ran anyway,
+// v2 = iterations where the callback ran twice, or Remove returned false and the callback did not
+// run exactly once.  Both are 0 for every lock order on a correct cache, so the observation is
+// deterministic although the schedule is only forced, not controlled.
 package oneshot
 
 import (
+	"reflect"
 	"sort"
 	"sync"
+	"sync/atomic"
 	"testing"
 	"testing/synctest"
 	"time"
+	"unsafe"
 
 	"google.golang.org/grpc/internal/cache"
 	"google.golang.org/grpc/internal/grpcsync"
@@ -158,8 +170,58 @@ func vOneShotExec3(ops [][]int64) ([][]int64, bool, []string) {
 	return obs, zeros >= 1 && failed, []string{"refcount"}
 }
 
+func vOneShotExec4(ops [][]int64) ([][]int64, bool, []string) {
+	var obs [][]int64
+	hits := 0
+	for _, op := range ops {
+		if len(op) != 2 || op[0] != 1 || op[1] < 0 {
+			obs = append(obs, []int64{-1})
+			continue
+		}
+		n := int(op[1])
+		if n > 8 {
+			n = 8
+		}
+		v1, v2 := int64(0), int64(0)
+		for i := 0; i < n; i++ {
+			c := cache.NewTimeoutCache(time.Millisecond)
+			mu := (*sync.Mutex)(unsafe.Pointer(reflect.ValueOf(c).Elem().FieldByName("mu").UnsafeAddr()))
+			var cbs atomic.Int32
+			c.Add(1, 1, func() { cbs.Add(1) })
+			mu.Lock()
+			res := make(chan bool, 1)
+			go func() {
+				_, ok := c.Remove(1)
+				res <- ok
+			}()
+			time.Sleep(4 * time.Millisecond) // the timer fires; its function queues on mu behind Remove
+			mu.Unlock()
+			ok := <-res
+			time.Sleep(3 * time.Millisecond) // let the timer function finish
+			k := cbs.Load()
+			if ok && k != 0 {
+				v1++
+			}
+			if k > 1 || (!ok && k != 1) {
+				v2++
+			}
+			if ok {
+				hits++
+			}
+		}
+		obs = append(obs, []int64{v1, v2})
+	}
+	tags := []string{"cache-window"}
+	if hits > 0 {
+		tags = append(tags, "window-hit")
+	}
+	return obs, hits > 0, tags
+}
+
 func vOneShotExec(cfg []int64, ops [][]int64) ([][]int64, bool, []string) {
 	switch {
+	case len(cfg) == 1 && cfg[0] == 4:
+		return vOneShotExec4(ops)
 	case len(cfg) == 2 && cfg[0] == 1 && cfg[1] >= 1:
 		return vOneShotExec1(cfg[1], ops)
 	case len(cfg) == 1 && cfg[0] == 2:
@@ -172,6 +234,9 @@ func vOneShotExec(cfg []int64, ops [][]int64) ([][]int64, bool, []string) {
 
 func vOneShotGen(r *vRand, tier string, idx int) ([]int64, [][]int64) {
 	var ops [][]int64
+	if idx == 1 || (idx > 4 && idx%40 == 1) {
+		return []int64{4}, [][]int64{{1, 5}}
+	}
 	switch {
 	case idx%4 == 2:
 		// Event: exhaustive-ish short sequences, then random
